@@ -222,7 +222,7 @@ def make_leaf(typ, spec):
         leaf["rs"], leaf["cs"] = [n], [d * d for d in dims]
         leaf["data"] = [float(x) for v in vecs for x in v]
     elif typ == "gate":
-        Ks = rand_kraus(rng, D, rng.choice([1, 1, 2, 3]))
+        Ks = rand_kraus(rng, D, spec.get("nkraus") or rng.choice([1, 1, 2, 3]))
         leaf["ops"] = Ks
         hs = hs_of_kraus(Ks, B)
         leaf["hs"] = hs
@@ -230,9 +230,13 @@ def make_leaf(typ, spec):
         leaf["rs"] = leaf["cs"] = [d * d for d in dims]
         leaf["data"] = [float(x) for x in hs.ravel()]
     elif typ == "mprocess":
-        n = spec["nout"]; g = rng.choice([1, 1, 2])
-        Ks = rand_kraus(rng, D, n * g)
-        groups = [Ks[x * g:(x + 1) * g] for x in range(n)]
+        # "ranks": number of Kraus operators per outcome (coarse-grained / noisy outcomes have rank >= 2, possibly unequal)
+        g = rng.choice([1, 1, 2])
+        ranks = list(spec.get("ranks") or [g] * spec["nout"])
+        n = len(ranks)
+        Ks = rand_kraus(rng, D, sum(ranks))
+        offs = [sum(ranks[:x]) for x in range(n + 1)]
+        groups = [Ks[offs[x]:offs[x + 1]] for x in range(n)]
         leaf["ops"] = groups
         hss = [hs_of_kraus(G, B) for G in groups]
         leaf["hss"] = hss
@@ -402,9 +406,35 @@ def chk_kmat(ctx, case):
         ctx.violation("perm", "matrix_util.convert_list_by_permutation_matrix", "value", "list permutation differs from P @ list", case)
 
 
+def chk_convlist(ctx, case):
+    """matrix_util.convert_list_by_permutation_matrix vs the model [conv_list] (= the function regenerated from the source,
+    coq/gen/C07_Equiv2.v): first column with a 1 per row, placeholder True for a row without a 1"""
+    from quara.utils import matrix_util as mu
+    n, m, P, old = case["n"], case["m"], case["P"], case["old"]
+    val = ctx.get_model().call("c07.conv_list", [n, m] + old + [x for row in P for x in row])
+    want = [True if int(v) == -1 else int(v) for v in val]
+    impl = run_impl(lambda: mu.convert_list_by_permutation_matrix(list(old), np.array(P, dtype=float).reshape(n, m)))
+    isperm = n == m and all(sorted(row) == [0] * (m - 1) + [1] for row in P) and all(sum(P[r][c] for r in range(n)) == 1 for c in range(m))
+    ctx.count("perm", key=("conv", repr(case)), nontrivial=True, label="convert-list-" + ("perm" if isperm else "general"))
+    if impl[0] != "ok" or [x if x is True else int(x) for x in impl[1]] != want:
+        ctx.violation("perm", "matrix_util.convert_list_by_permutation_matrix", "value", "result %s differs from the model %s for P = %s, list %s" % (impl[1:], want, P, old), case)
+    elif isperm and [int(x) for x in impl[1]] != [int(x) for x in (np.array(P) @ np.array(old))]:
+        ctx.violation("perm", "matrix_util.convert_list_by_permutation_matrix", "not-P-times-list", "result is not P @ list for the permutation matrix %s" % (P,), case)
+
+
 def sub_perm(ctx):
     rng = ctx.rng
     cases = []
+    cl = []
+    for i in range(ctx.n(12, 80) if not getattr(ctx, "widen", False) else 80):
+        n = rng.choice([1, 2, 3, 4, 5]); m = n if i % 2 == 0 else rng.choice([1, 2, 3, 4, 5])
+        if i % 2 == 0:
+            pi = list(range(n)); rng.shuffle(pi)
+            P = [[1 if c == pi[r] else 0 for c in range(m)] for r in range(n)]
+        else:
+            P = [[rng.choice([0, 0, 1, 1, 2]) for _ in range(m)] for _ in range(n)]
+        cl.append({"conv": 1, "n": n, "m": m, "P": P, "old": [100 + 7 * c for c in range(m)]})
+    ctx.run_cases("perm", chk_convlist, cl)
     # every permutation of 2..4 names with sizes of state vectors (4, 9) and of outcome counts
     for n in (2, 3, 4):
         for perm in itertools.permutations(range(n)):
@@ -413,7 +443,7 @@ def sub_perm(ctx):
                 cases.append({"names": [int(p) * 3 + 1 for p in perm], "sizes": pool[:n], "seed": rng.randrange(10 ** 6)})
     # seeded sample, 3-6 subsystems; the dense N x N matmuls of the implementation bound N (one swap costs N^3)
     cap = ctx.n(300, 1000)
-    for _ in range(ctx.n(20, 200)):
+    for _ in range(ctx.n(20, 200) if not getattr(ctx, "widen", False) else 120):
         n = rng.choice([3, 4, 4, 5, 5, 6])
         names = rng.sample(range(0, 40), n)
         sizes = [rng.choice([1, 2, 2, 3, 3, 4]) for _ in range(n)]
@@ -624,7 +654,7 @@ def sub_gate(ctx):
             c["leaves"] = [dict(sp, phys=False) for sp in c["leaves"]]
     cases = c3[:: (4 if ctx.quick else 1)]
     cases += exhaustive_tree_cases(ctx, "gate", [2, 3], [5, 2], [0, 0])
-    cases += gen_tree_cases(ctx, "gate", [2, 2, 3] if not ctx.quick else [2], ctx.n(6, 40))
+    cases += gen_tree_cases(ctx, "gate", [2, 2, 3] if not ctx.quick else [2], ctx.n(4, 40))
     ctx.sample("gate", cases[3])
     ctx.run_cases("gate", chk_tree, cases)
 
@@ -855,10 +885,32 @@ def chk_embed(ctx, case):
     typ, nq = case["typ"], case["nq"]
     n3, n4 = 3 ** nq, 4 ** nq
     m = ctx.get_model()
-    leaf = make_leaf(typ, {"names": list(range(nq)), "dims": [3] * nq, "nout": case.get("nout", 2), "seed": case["seed"]})
+    spec = {"names": list(range(nq)), "dims": [3] * nq, "nout": case.get("nout", 2), "seed": case["seed"],
+            "ranks": case.get("ranks"), "nkraus": case.get("nkraus")}
+    leaf = make_leaf(typ, spec)
     es = [esys(nm, 2) for nm in case["qubit_names"]]
+    # the permutation matrix first (model: emb_perm; its index loop is also regenerated from the source, coq/gen/C07_Equiv2.v)
+    pi = [int(x) for x in m.call("c07.embed_perm", [nq])]
+    Pm = np.zeros((n4, n4)); Pm[np.arange(n4), pi] = 1
+    if not np.array_equal(QOperation._permutation_matrix_from_qutrits_to_qubits(nq), Pm):
+        ctx.count("embed", key=repr(case), nontrivial=True, label="perm-matrix-mismatch")
+        ctx.violation("embed", "qoperation._permutation_matrix_from_qutrits_to_qubits", "model-mismatch", "permutation differs from the model for %d qutrits" % nq, case)
+        return
     impl = run_impl(lambda: QOperation.embed_qoperation_from_qutrits_to_qubits(leaf["obj"], es))
-    ctx.count("embed", key=repr(case), nontrivial=len(es) == 2 * nq, label="%s-%dqutrit-%s" % (typ, nq, impl[0]))
+    raised_unphysical = None
+    if impl[0] == "err" and impl[1] == "ValueError" and "physical" in impl[2] and len(es) == 2 * nq and typ in ("gate", "mprocess"):
+        # the constructor of the embedded object rejected it: embed a copy that does not insist on physicality so that the
+        # physicality predicates below can say WHAT is wrong with the embedded object
+        raised_unphysical = impl[2]
+        leaf = make_leaf(typ, dict(spec, phys=False))
+        impl = run_impl(lambda: QOperation.embed_qoperation_from_qutrits_to_qubits(leaf["obj"], es))
+    rk = ""
+    if typ == "mprocess":
+        rs_ = [len(g) for g in leaf["ops"]]
+        rk = "-rank1" if max(rs_) == 1 else ("-rank>=2" if len(set(rs_)) == 1 else "-ranks-unequal")
+    elif typ == "gate":
+        rk = "-kraus%d" % len(leaf["ops"])
+    ctx.count("embed", key=repr(case), nontrivial=len(es) == 2 * nq, label="%s-%dqutrit%s-%s" % (typ, nq, rk, impl[0]))
     if len(es) != 2 * nq:
         if impl[0] != "err" or impl[1] != "ValueError":
             ctx.violation("embed", "qoperation.embed_qoperation_from_qutrits_to_qubits", "error-kind", "wrong number of qubit systems must raise ValueError, got %s" % (impl[:2],), case)
@@ -869,11 +921,6 @@ def chk_embed(ctx, case):
     r = impl[1]
     Bq = [dense(b) for b in r.composite_system.basis()]
     B3 = [dense(b) for b in leaf["obj"].composite_system.basis()]
-    pi = [int(x) for x in m.call("c07.embed_perm", [nq])]
-    Pm = np.zeros((n4, n4)); Pm[np.arange(n4), pi] = 1
-    if not np.array_equal(QOperation._permutation_matrix_from_qutrits_to_qubits(nq), Pm):
-        ctx.violation("embed", "qoperation._permutation_matrix_from_qutrits_to_qubits", "model-mismatch", "permutation differs from the model for %d qutrits" % nq, case)
-        return
     rng = random.Random(case["seed"] + 17)
     rho_in = rand_state(rng, n3)
     rho_emb = model_embed(ctx, nq, 0.0, rho_in)
@@ -930,6 +977,23 @@ def chk_embed(ctx, case):
             if maxabs(hs_of_kraus(Ks, B3), hs) > 1e-8:
                 ctx.violation("embed", "gate.to_kraus_matrices_from_hs", "kraus-certificate", "Kraus set does not reproduce the HS matrix (%.3g)" % maxabs(hs_of_kraus(Ks, B3), hs), case)
                 return
+        # ---- physicality of the embedded map, evaluated on the implementation's OUTPUT (independent of the model and of quara's verdicts):
+        # sum-TP <=> first row of sum_x HS_x is e_0 (B_0 = I / sqrt(dim)); CP per outcome by the exact PSD decision on its Choi matrix
+        S_out = sum(np.asarray(h) for h in hss_out)
+        row0 = np.zeros(len(Bq)); row0[0] = 1.0
+        tp_dev = maxabs(S_out[0, :], row0)
+        cp_bad = None
+        if nq == 1 and (case.get("cert", False) or raised_unphysical):
+            for x, h in enumerate(hss_out):
+                choi = sum(h[a, b] * np.kron(Bq[a], Bq[b].conj()) for a in range(len(Bq)) for b in range(len(Bq)))
+                if psd_cert(ctx, choi, 1e-10) is False:
+                    cp_bad = x
+                    break
+        if tp_dev > 1e-8 or cp_bad is not None or raised_unphysical:
+            ctx.violation("embed", site, "unphysical-embedding",
+                          "embedding of a physical qutrit %s with Kraus ranks %s per outcome is not physical: sum-TP deviation %.3g, outcome with non-PSD Choi %s, constructor %s"
+                          % (typ, [len(g) for g in groups_mine], tp_dev, cp_bad, ("raised: " + raised_unphysical[:60]) if raised_unphysical else "accepted"), case)
+            return
         c = 1.0 / np.sqrt(sum(len(Ks) for Ks in groups_impl))
         tp_sum = np.zeros((n4, n4), dtype=complex)
         for x, (Ks, hs_o) in enumerate(zip(groups_impl, hss_out)):
@@ -948,12 +1012,6 @@ def chk_embed(ctx, case):
                 return
         if maxabs(tp_sum, np.eye(n4)) > 1e-8 or not r.is_physical():
             ctx.violation("embed", site, "unphysical-embedding", "embedded map is not trace preserving / is_physical False", case)
-        elif nq == 1 and case.get("cert", False):
-            # exact CP certificate on the Choi matrix of the (summed) embedded map
-            S = sum(hss_out)
-            choi = sum(S[a, b] * np.kron(Bq[a], Bq[b].conj()) for a in range(len(Bq)) for b in range(len(Bq)))
-            if psd_cert(ctx, choi, 1e-10) is False:
-                ctx.violation("embed", site, "unphysical-embedding", "Choi matrix of the embedded map is not PSD (exact decision at +1e-10)", case)
 
 
 def sub_embed(ctx):
@@ -963,7 +1021,18 @@ def sub_embed(ctx):
         typ = ["state", "povm", "gate", "mprocess", "state", "povm"][i % 6]
         nq = 1 if typ in ("gate", "mprocess") or i % 4 else 2
         names = rng.sample(range(0, 20), 2 * nq)
-        cases.append({"typ": typ, "nq": nq, "nout": rng.choice([2, 3, 4]), "seed": rng.randrange(10 ** 9), "qubit_names": names, "cert": i % 12 == 2})
+        case = {"typ": typ, "nq": nq, "nout": rng.choice([2, 3, 4]), "seed": rng.randrange(10 ** 9), "qubit_names": names, "cert": i % 12 == 2}
+        if typ == "mprocess":
+            # Kraus ranks per outcome: rank one (projective / Lueders), coarse-grained and noisy outcomes (rank >= 2), unequal ranks
+            case["ranks"] = [[1, 2], [2, 1, 1], [1, 1, 1], [2, 2], [3, 1], [2, 1, 3], [1, 1], [2, 3]][(i // 6) % 8]
+            case["cert"] = (i // 6) % 4 == 0
+        elif typ == "gate":
+            case["nkraus"] = [2, 1, 3, 2, 4][(i // 6) % 5]
+        cases.append(case)
+    # every run: instruments with unequal Kraus ranks / a rank-3 outcome, a gate with three Kraus operators
+    cases.append({"typ": "mprocess", "nq": 1, "ranks": [2, 1, 3], "seed": rng.randrange(10 ** 9), "qubit_names": rng.sample(range(0, 20), 2), "cert": False})
+    cases.append({"typ": "mprocess", "nq": 1, "ranks": [1, 1, 1], "seed": rng.randrange(10 ** 9), "qubit_names": rng.sample(range(0, 20), 2), "cert": False})
+    cases.append({"typ": "gate", "nq": 1, "nkraus": 3, "seed": rng.randrange(10 ** 9), "qubit_names": rng.sample(range(0, 20), 2), "cert": True})
     cases.append({"typ": "state", "nq": 1, "seed": 5, "qubit_names": [0, 1, 2]})
     cases.append({"typ": "gate", "nq": 1, "seed": 6, "qubit_names": [4]})
     if not ctx.quick:
@@ -976,21 +1045,71 @@ SUBS = [("perm", sub_perm), ("state", sub_state), ("povm", sub_povm), ("gate", s
 
 
 def chk_perm_any(ctx, case):
+    if "conv" in case:
+        return chk_convlist(ctx, case)
     return chk_kmat(ctx, case) if "d1" in case else chk_perm(ctx, case)
 
 
 FNS = {"perm": chk_perm_any, "state": chk_tree, "povm": chk_tree, "gate": chk_tree, "mprocess": chk_mprocess, "misc": chk_misc, "embed": chk_embed}
 
 
+def regen_own(ctx):
+    """translator tie with this property's own translator gen/c07_py2coq.py (same protocol as flow.regen_check):
+    regenerate Gallina definitions of matrix_util._left_permutation_matrix, calc_permutation_matrix,
+    convert_list_by_permutation_matrix and of the index loop of QOperation._permutation_matrix_from_qutrits_to_qubits from the
+    CURRENT source, compile them next to Gen_cross_position.v and re-check coq/gen/C07_Equiv2.v. returns (ok, info)"""
+    import os, re, shutil, subprocess, sys
+    import runner
+    V = runner.V
+    scratch = os.path.join(ctx.scratch, "gen")
+    os.makedirs(scratch, exist_ok=True)
+    gen_v = os.path.join(scratch, "Gen_c07.v")
+    equiv = os.path.join(V, "coq", "gen", "C07_Equiv2.v")
+    src = open(equiv).read()
+    src_nc = re.sub(r"\(\*.*?\*\)", " ", src, flags=re.S)
+    thms = re.findall(r"^\s*Theorem\s+([\w']+)", src_nc, flags=re.M)
+    ctx.theorems = list(ctx.theorems) + [t for t in thms if t not in ctx.theorems]
+    ctx.obligations += len(thms)
+    q = ["-Q", os.path.join(V, "coq", "theories"), "QV", "-Q", scratch, "QVGen"]
+    if not os.path.exists(os.path.join(scratch, "Gen_cross_position.vo")):
+        return False, {"theorem": thms[0], "error": "Gen_cross_position.vo missing (the cross_position group did not regenerate)"}
+    r = subprocess.run([sys.executable, os.path.join(V, "gen", "c07_py2coq.py"), os.environ.get("VERIF_REPO", "/repo"), gen_v],
+                       capture_output=True, text=True, timeout=120)
+    if r.returncode != 0:
+        return False, {"theorem": thms[0], "error": "translator rejected the source (outside its subset): " + (r.stdout + r.stderr)[-600:]}
+    r = subprocess.run(["timeout", "300", "coqc"] + q + [gen_v], capture_output=True, text=True)
+    if r.returncode != 0:
+        return False, {"theorem": thms[0], "error": "regenerated functions do not compile: " + (r.stdout + r.stderr)[-600:]}
+    dst = os.path.join(scratch, "C07_Equiv2.v")
+    shutil.copy(equiv, dst)
+    r = subprocess.run(["timeout", "600", "coqc"] + q + [dst], capture_output=True, text=True)
+    out = r.stdout + r.stderr
+    if r.returncode != 0:
+        m_ = re.search(r"line (\d+), characters", out)
+        thm = None
+        if m_:
+            upto = "\n".join(src.splitlines()[:int(m_.group(1))])
+            names = re.findall(r"^\s*(?:Theorem|Lemma)\s+([\w']+)", upto, flags=re.M)
+            thm = names[-1] if names else None
+        return False, {"theorem": thm, "error": out[-800:]}
+    blocks = runner.parse_assumptions(out)
+    bad = [a for closed, axs in blocks for a in axs if a not in runner.ALLOWED_AXIOMS and a.split(".")[-1] not in runner.ALLOWED_AXIOMS]
+    if len(blocks) != len(thms) or bad:
+        return False, {"theorem": thms[0], "error": "assumption gate on regenerated proofs: %d blocks / %d theorems, disallowed %s" % (len(blocks), len(thms), bad)}
+    for t, (closed, axs) in zip(thms, blocks):
+        ctx.axioms[t] = "closed" if closed else sorted(set(axs))
+    ctx.discharged += len(thms)
+    return True, {}
+
+
 def run(ctx):
+    import time
+    import runner
     ctx.rule = ("factors are exactly-rational physical objects (states LL^dagger/tr, POVMs / gates / instruments from blocks of an exactly unitary "
                 "Gaussian-rational dilation), converted once to float coefficient form and fed to quara and to the extracted model; arrangements: "
                 "2-4 subsystems of dims {2,3}, every permutation of names x every grouping for fixed dimension patterns plus a seeded sample, "
                 "pairwise different outcome counts; non-trivial = names NOT already ascending in argument order (a permutation is really applied) "
                 "or unequal outcome counts; distinct = distinct (factors, names, grouping)")
-    # matrix_util._check_cross_system_position (the control of the bubble loop) is REGENERATED from the current source by
-    # gen/py2coq.py and re-proved equal to the model's [check_cross] (coq/gen/C07_Equiv.v) on every run
-    import time
 
     def timed(name, fn):
         def go(c):
@@ -998,7 +1117,34 @@ def run(ctx):
             fn(c)
             c.note("sub-check %s: %.1f s" % (name, time.time() - t0))
         return go
-    flow.standard_run(ctx, [(nm, timed(nm, fn)) for nm, fn in SUBS], regens=[("cross_position", "C07_Equiv")])
+    # flow.standard_run, extended by this property's own translator tie:
+    #  (1) Props/C07.v; (2) matrix_util._check_cross_system_position regenerated by gen/py2coq.py, coq/gen/C07_Equiv.v;
+    #  (3) _left_permutation_matrix, calc_permutation_matrix, convert_list_by_permutation_matrix, the index loop of
+    #      _permutation_matrix_from_qutrits_to_qubits regenerated by gen/c07_py2coq.py, coq/gen/C07_Equiv2.v
+    ok, info = runner.check_props(ctx)
+    thms_before = list(ctx.theorems)
+    ok2, info2 = flow.regen_check(ctx, "cross_position", "C07_Equiv")
+    ctx.theorems = thms_before + [t for t in ctx.theorems if t not in thms_before]
+    ctx.obligations += getattr(ctx, "regen_obligations", 0)
+    ctx.discharged += getattr(ctx, "regen_discharged", 0)
+    ok3, info3 = regen_own(ctx)
+    for o, i, what in ((ok2, info2, "cross_position / C07_Equiv"), (ok3, info3, "gen/c07_py2coq.py / C07_Equiv2")):
+        if not o:
+            ok, info = False, i
+            ctx.note("regenerated-model obligations (%s) not discharged: %s" % (what, str(i)[:400]))
+    if not ok:
+        ctx.discharged = min(ctx.discharged, ctx.obligations - 1)
+        # the tie is broken: widen the search for a concrete failing input (thorough counts for the function-level sweeps)
+        ctx.widen = True
+    for name, fn in SUBS:
+        if ctx.only is None or name in ctx.only:
+            timed(name, fn)(ctx)
+    if not ok and not ctx.violations:
+        ctx.violation("theorems", "Props/%s.v" % ctx.prop_id, "theorem-broken:%s" % info.get("theorem"),
+                      "theorem %s no longer checks: %s" % (info.get("theorem"), info.get("error", "")[-400:]),
+                      {"theorem": info.get("theorem"), "error": info.get("error")}, no_input=True)
+    elif not ok:
+        ctx.note("theorem obligations not discharged: %s" % info)
 
 
 def replay(ctx, doc):
